@@ -7,6 +7,7 @@
    sender steps (modify with any update or a no-op closure, drop) and receiver steps (recv
    loop, re-poll, cancel at the await point, try_recv, drop). *)
 From SV Require Import Base.Prelude Model.Sched Model.MergeChan Proofs.MergeChan_proofs Proofs.MergeChan_thms.
+From SV Require Import Model.MetaUpdate Proofs.MetaUpdate_proofs.
 Open Scope N_scope.
 
 (* every update merged in so far is - in order, exactly once - in a value already returned by
@@ -98,7 +99,78 @@ Theorem C19_stress_ok_sound : forall n bs, stress_ok n bs = true ->
   expand_batches bs = nrange 0 (N.to_nat n).
 Proof. exact stress_ok_sound. Qed.
 
+(* ---- the value that travels through the channel (Model/MetaUpdate.v: update.rs merge functions,
+   and what the cluster worker does with the refresh responses of a received update) ---- *)
+
+(* no production closure clears the slot: after any of the five merge functions it holds a value
+   (this, with the census of the call sites, is what "merging = appending" in the channel model
+   rests on) *)
+Theorem C19_merge_never_clears : forall v o s,
+  match o with MTake => True | _ => h_slot (apply_mop v o s) <> None end.
+Proof. intros v o s. destruct o; try exact Logic.I; apply merge_never_clears; reflexivity. Qed.
+
+(* the refresh responses attached to the slot are the append monoid under every merge function:
+   merge_metadata appends the new response channel to the ones already pending, all other merges
+   keep them *)
+Theorem C19_responses_hom : forall v o s,
+  match o with
+  | MTake => True
+  | _ => responses_slot (h_slot (apply_mop v o s)) = responses_slot (h_slot s) ++ requested v [o]
+  end.
+Proof. intros v o s. destruct o; try exact Logic.I; apply responses_hom; reflexivity. Qed.
+
+(* "a requested refresh is eventually answered": for EVERY sequence of merges and takes, the
+   responses answered so far ++ the ones attached to the slot are exactly the requests made, in
+   order and without duplicates - every response channel survives every merge and is answered
+   exactly once, as soon as the consumer takes the value it is attached to *)
+Theorem C19_refresh_answered_once : forall os,
+  h_answered (run_mops 1 os h_init) ++ responses_slot (h_slot (run_mops 1 os h_init)) = requested 1 os /\
+  NoDup (requested 1 os).
+Proof. intros os. split; [apply mu_no_loss_dup|apply requested_nodup]. Qed.
+
+Theorem C19_take_answers_all : forall os,
+  h_answered (run_mops 1 (os ++ [MTake]) h_init) = requested 1 (os ++ [MTake]) /\
+  h_slot (run_mops 1 (os ++ [MTake]) h_init) = None.
+Proof. exact mu_take_answers_all. Qed.
+
+(* "the published state reflects the latest fetched topology": the peer list the consumer will
+   receive is the newest one fetched (by a full or a partial topology fetch) since it last took *)
+Theorem C19_latest_topology : forall os,
+  peers_slot (h_slot (run_mops 1 os h_init)) = latest_peers 1 os None.
+Proof. exact mu_latest_peers. Qed.
+
+(* the predicate the driver evaluates on the implementation's response-channel statuses means
+   what it says, and the model satisfies it *)
+Theorem C19_status_ok_sound : forall st k, status_ok st k = true ->
+  (forall x, In x st -> x = 0 \/ x = 1) /\ N.of_nat (List.length (filter (N.eqb 0) st)) = k.
+Proof. exact status_ok_sound. Qed.
+
+Theorem C19_model_status_ok : forall s,
+  status_ok (model_status s) (N.of_nat (List.length (responses_slot (h_slot s)))) = true.
+Proof. exact model_status_ok. Qed.
+
 (* non-vacuity *)
+(* two refreshes fetched back to back while the consumer is busy: both response channels are in
+   the slot, a topology fetch overwrites only the peer list, the take answers both *)
+Example C19_ex_refresh_merge :
+  let s := run_mops 1 [MFull true false; MUp 1; MFull true true; MTopology; MDown 1] h_init in
+  view (h_slot s) = (3, 3, 4, true, [], 2, [(1, false)]) /\
+  responses_slot (h_slot s) = [1; 3] /\ h_answered s = [] /\
+  h_answered (apply_mop 6 MTake s) = [1; 3] /\ h_slot (apply_mop 6 MTake s) = None /\
+  requested 1 [MFull true false; MUp 1; MFull true true; MTopology; MDown 1] = [1; 3] /\
+  latest_peers 1 [MFull true false; MUp 1; MFull true true; MTopology; MDown 1] None = Some 4.
+Proof. repeat split; vm_compute; reflexivity. Qed.
+Example C19_ex_partial :
+  view (h_slot (run_mops 1 [MRoutes; MTopology; MRoutes; MUp 2; MUp 1] h_init)) = (2, 0, 2, false, [1; 3], 0, [(1, true); (2, true)]) /\
+  view (h_slot (run_mops 1 [MTopology; MFull false false] h_init)) = (3, 2, 2, false, [], 0, []) /\
+  view (h_slot (run_mops 1 [MUp 1; MTake] h_init)) = (0, 0, 0, false, [], 0, []).
+Proof. repeat split; vm_compute; reflexivity. Qed.
+Example C19_ex_status_rejects :
+  (* a dropped sender (2), an error answer (3), a pending channel that is not in the slot *)
+  status_ok [1; 1; 0] 1 = true /\ status_ok [2; 0] 1 = false /\ status_ok [1; 3] 0 = false /\
+  status_ok [1; 0] 0 = false /\ status_ok [] 0 = true /\
+  model_status (run_mops 1 [MFull true false; MTake; MFull true false] h_init) = [1; 0].
+Proof. repeat split; vm_compute; reflexivity. Qed.
 (* the race of the code's comment: the receiver has read an empty slot, then the sender merges,
    sets the flag and notifies; the re-check still delivers the last update, then None *)
 Example C19_ex_last_update :
@@ -149,3 +221,10 @@ Print Assumptions C19_ops_reachable.
 Print Assumptions C19_refines_spec.
 Print Assumptions C19_model_total.
 Print Assumptions C19_stress_ok_sound.
+Print Assumptions C19_merge_never_clears.
+Print Assumptions C19_responses_hom.
+Print Assumptions C19_refresh_answered_once.
+Print Assumptions C19_take_answers_all.
+Print Assumptions C19_latest_topology.
+Print Assumptions C19_status_ok_sound.
+Print Assumptions C19_model_status_ok.
